@@ -169,7 +169,14 @@ class TypeScriptMagicNumberAnalyzer(TypeScriptBaseAnalyzer):  # thailint: ignore
         """Check if node is a declaration type."""
         if node is None:
             return False
-        return node.type in ("variable_declarator", "lexical_declaration", "pair")
+        # class-level constants (static readonly MAX_RETRIES = 7) are field definitions
+        return node.type in (
+            "variable_declarator",
+            "lexical_declaration",
+            "pair",
+            "public_field_definition",
+            "field_definition",
+        )
 
     def _has_uppercase_identifier(self, parent_node: Node) -> bool:
         """Check if declaration has UPPERCASE identifier.
@@ -200,6 +207,9 @@ class TypeScriptMagicNumberAnalyzer(TypeScriptBaseAnalyzer):  # thailint: ignore
         if node.type == "variable_declarator":
             name = node.child_by_field_name("name")
             return name if name is not None and name.type == "identifier" else None
+        if node.type in ("public_field_definition", "field_definition"):
+            name = node.child_by_field_name("name") or node.child_by_field_name("property")
+            return name if name is not None and name.type == "property_identifier" else None
         if node.type == "pair":
             key = node.child_by_field_name("key")
             is_name = key is not None and key.type in ("identifier", "property_identifier")
